@@ -33,6 +33,5 @@ Definition judge (c : case) : verdict :=
   let holds := holds_C21 (ops c) (obs_out c) (obs_delayed c) (obs_disc c) in
   let im := impl_run (cfg c) (ops c) in
   if matches c (spec_run (cfg c) (ops c)) then (if holds then VOk else VViolation)
-  else if matches c im && (0 <? lost1 im) then VKnown 1
   else if matches c im && hit2 im then VKnown 2
   else if holds then VMismatch else VViolation.
